@@ -30,7 +30,23 @@ func (c *Cluster) MinPacket() int {
 				}
 			}
 		}
-		b, err := gossip.VerifEncodeDigest(o, c.addrOf[o], true, nil, 1<<30)
+		// the whole digest must fit: the code shuffles a digest that does not fit and sends a random part of it,
+		// and a sweep in which nothing changed would then not mean that nothing is outstanding. Every node may
+		// come to know every node, so the size is that of a digest naming them all.
+		dig := n.G.Digest()
+		seen := map[string]bool{}
+		for _, e := range dig {
+			seen[e.ID] = true
+		}
+		for _, id := range c.Order {
+			if !seen[id] {
+				dig = append(dig, gossip.VerifDigestEntry{ID: id, Addr: c.addrOf[id], Version: 1 << 40})
+			}
+		}
+		for i := range dig {
+			dig[i].Version = 1 << 40 // versions grow during the closure: allow for the widest encoding
+		}
+		b, err := gossip.VerifEncodeDigest(o, c.addrOf[o], true, dig, 1<<30)
 		if err == nil && len(b) > min {
 			min = len(b)
 		}
